@@ -23,7 +23,10 @@ the runs above — one fault before the closing handshake, one in it); `C03_end_
 File Data PDU is lost and then ANY NUMBER of NAKs below the NAK limit: every expiry re-issues exactly
 the same NAK, `C03_nak_expiries` by induction over the expiry times) and
 `C03_end_to_end_retransmission_lost` (the retransmission is lost again; the sender answers the
-re-issued NAK from its retransmission step).  The building blocks are stated from states, not from
+re-issued NAK from its retransmission step); `C03_end_to_end_single_loss_immediate` (IMMEDIATE NAK
+mode: the gap is requested with the tile that reveals it, the sender answers in the middle of its
+stream and resumes — the PDUs of the disturbed run are exactly those of the undisturbed one, C08).
+The building blocks are stated from states, not from
 runs (`C03_prefix_single_loss`, `C03_recovery_from_waiting`, `C03_closing*`), so they compose.
 Proved as whole-run theorems about the receiver model: `C03_single_loss_recovery` (any one File Data PDU but the last never arrives: exactly one NAK
 with exactly the missing range, the retransmission completes the file, verification, Finished PDU,
@@ -2529,6 +2532,521 @@ theorem C03_end_to_end_retransmission_lost (envS : Source.Env) (envD : Dest.Env)
 
 
 
+/-! ## Immediate NAK mode: the gap is requested at once, the sender answers in the middle of its stream -/
+
+/-- the hole written into a prefix of the file is the hole of the file, cut at `m` -/
+theorem write_fills_hole_prefix (F : List UInt8) (a b m : Nat) (hab : a < b) (hbm : b ≤ m) (hm : m ≤ F.length) :
+    Fs.writeBytes (holeFile F a b m) ((F.drop a).take (b - a)) a = F.take m := by
+  have hl : (F.take m).length = m := by simp [List.length_take]; omega
+  have h1 : holeFile F a b m = holeFile (F.take m) a b (F.take m).length := by
+    simp only [holeFile, hl]
+    have e1 : (F.take m).take a = F.take a := by rw [List.take_take]; congr 1; omega
+    have e2 : ((F.take m).drop b).take (m - b) = (F.drop b).take (m - b) := by
+      rw [List.drop_take, List.take_take]; congr 1; omega
+    rw [e1, e2]
+  have h2 : (F.drop a).take (b - a) = ((F.take m).drop a).take (b - a) := by
+    rw [List.drop_take, List.take_take]; congr 1; omega
+  rw [h1, h2]
+  exact write_fills_hole (F.take m) a b hab (by omega)
+
+/-- receiver in the middle of an acknowledged transfer, immediate NAK mode: exactly the bytes `[a, b)`
+are missing and have been requested; the data up to `m` is stored behind the hole -/
+structure HoleI (d : DestSt) (dst : String) (F : List UInt8) (a b m : Nat) (rc : RemoteCfg) (t : Tid)
+    (cks : Nat) (conf : Hdr) : Prop where
+  hbusy : d.state = .busy
+  hstep : d.step = .RECEIVING_FILE_DATA
+  hready : d.numReady = 0
+  hqueue : d.queue = []
+  hconf : d.p.conf = conf
+  hmode : conf.mode = .ack
+  hname : d.p.fileName = dst
+  hfile : d.fs.get dst = some (.file (holeFile F a b m))
+  hprog : d.p.progress = m
+  hnoEof : d.p.fileSizeEof = none
+  hrc : d.p.remoteCfg = some rc
+  htid : d.p.tid = some t
+  hrej : d.rejects = []
+  hcks : d.p.cksType = cks
+  hcancel : d.p.canceled = false
+  hmo : d.p.metadataOnly = false
+  hflts : d.flts = []
+  hfin : d.p.fin = ⟨ccNoError, dcIncomplete, fsRetained, none⟩
+  htrk : d.p.trk = [(a, b)]
+  hlastE : d.p.lastEnd = m
+  hlastS : d.p.lastStart = b
+  hmm : d.p.metadataMissing = false
+  hdef : d.p.deferredActive = false
+
+/-- state after the first tile behind the hole, immediate NAK mode: the NAK is queued -/
+def afterGapI (d : DestSt) (dst : String) (F : List UInt8) (a b m n : Nat) (env : Env) (t : Tid) : DestSt :=
+  { d with fs := d.fs.set dst (.file (holeFile F a b m)), p := gapP d.p a b m,
+           queue := [mkNak d.p.conf 0 m [(a, b)]], numReady := 1,
+           inds := d.inds ++ (if env.cfg.indSegRecv then [.segRecv (some t) b n] else []) }
+
+/-- **The tile after a lost one, immediate NAK mode**: the gap `[a, b)` is recorded as lost and
+requested at once — exactly one NAK PDU, scope `(0, end of this tile)`, the single request `(a, b)` -/
+theorem C03_gap_tile_immediate (env : Env) (d : DestSt) (dst : String) (F : List UInt8) (a b n : Nat)
+    (rc : RemoteCfg) (t : Tid) (cks : Nat) (conf h : Hdr) (hr : ReceivingA d dst (F.take a) rc t cks conf)
+    (ha : AdmissibleA env rc h) (hab : a < b) (hb : b < F.length) (hn : 0 < n) (himm : rc.imm = true) :
+    stateMachine env (some (.fd h b ((F.drop b).take n))) d =
+      .ok () (afterGapI d dst F a b (min (b + n) F.length) (min n (F.length - b)) env t) ∧
+    HoleI (drained (afterGapI d dst F a b (min (b + n) F.length) (min n (F.length - b)) env t)) dst F a b
+      (min (b + n) F.length) rc t cks conf := by
+  have hla : (F.take a).length = a := by simp [List.length_take]; omega
+  have hw := write_creates_hole F a b n hab hb hn
+  have hdl : ((F.drop b).take n).length = min n (F.length - b) := by simp [List.length_take, List.length_drop]
+  have hgt : b > d.p.lastEnd := by rw [hr.hlastE, hla]; exact hab
+  have hge : b ≥ d.p.lastEnd := by omega
+  have hnle : ¬ b + min n (F.length - b) ≤ b := by omega
+  have hm : d.p.conf.mode = .ack := by rw [hr.hconf]; exact hr.hmode
+  have hmin : b + min n (F.length - b) = min (b + n) F.length := by omega
+  have hmax : max (b + min n (F.length - b)) a = min (b + n) F.length := by omega
+  have hcond : ¬ (n = 0 ∨ F.length ≤ b) := by omega
+  constructor
+  · cases hi : env.cfg.indSegRecv <;>
+    msimp [stateMachine, stateMachineWith, checkInsertedPacket, Pdu.hdr, ha.hdir, ha.hdst, ha.hsrc, Pdu.kind,
+      Route.getPacketDestination, hr.hbusy, transmissionMode, hm, nonIdleFsm,
+      fsmAdvancementAfterPacketsWereSent, hr.hqueue, hr.hstep, fsmFromReceiving, handleFdOrEofPdu, handleFdPdu,
+      fdIndication, hi, getP, emitInd, hr.htid, fdLostSegments, lostSegmentHandling, hgt, hge, hnle, hr.hrc, himm,
+      hr.htrk, Tracker.add, hdl, hr.hlastE, hcond, hab, Nat.le_of_lt hab, addPacket, hr.hready,
+      fdWrite, vfsWriteData, hr.hrej, hr.hname,
+      Fs.writeData, hr.hfile, hw, fdAfterWrite, sizeErrOf, modP, hr.hnoEof, hr.hprog, hla, hmax, hmin,
+      fsmFromWaitingForMetadata,
+      fsmFromCheckLimit, fsmFromWaitingForMissingData, fsmFromTransferCompletion, fsmFromSendingFinishedPdu,
+      fsmFromWaitingForFinishedAck, afterGapI, gapP, hr.hfin] <;> omega
+  · exact { hbusy := hr.hbusy, hstep := hr.hstep, hready := rfl, hqueue := rfl, hconf := hr.hconf,
+            hmode := hr.hmode, hname := hr.hname, hfile := by simp [drained, afterGapI, Fs.C17.get_set_same],
+            hprog := rfl, hnoEof := hr.hnoEof, hrc := hr.hrc, htid := hr.htid, hrej := hr.hrej,
+            hcks := hr.hcks, hcancel := hr.hcancel, hmo := hr.hmo, hflts := hr.hflts, hfin := hr.hfin,
+            htrk := rfl, hlastE := rfl, hlastS := rfl, hmm := hr.hmm, hdef := hr.hdef }
+
+def filledP (p : Params) : Params := { p with trk := [] }
+
+/-- state after the retransmitted data arrived while File Data is still being received -/
+def afterFill (d : DestSt) (dst : String) (F : List UInt8) (a b m : Nat) (env : Env) (t : Tid) : DestSt :=
+  { d with fs := d.fs.set dst (.file (F.take m)), p := filledP d.p,
+           inds := d.inds ++ (if env.cfg.indSegRecv then [.segRecv (some t) a (b - a)] else []) }
+
+/-- **The retransmission fills the hole while the transfer is still running**: the lost range is
+removed from the tracker, the stored content is the file's prefix; the receiver is in the state of a
+transfer without losses -/
+theorem C03_hole_filled_receiving (env : Env) (d : DestSt) (dst : String) (F : List UInt8) (a b m : Nat)
+    (rc : RemoteCfg) (t : Tid) (cks : Nat) (conf h : Hdr) (hr : HoleI d dst F a b m rc t cks conf)
+    (ha : AdmissibleA env rc h) (hab : a < b) (hbm : b ≤ m) (hm : m ≤ F.length) :
+    stateMachine env (some (.fd h a ((F.drop a).take (b - a)))) d = .ok () (afterFill d dst F a b m env t) ∧
+    ReceivingA (afterFill d dst F a b m env t) dst (F.take m) rc t cks conf := by
+  have hw := write_fills_hole_prefix F a b m hab hbm hm
+  have hdl : ((F.drop a).take (b - a)).length = b - a := by simp [List.length_take, List.length_drop]; omega
+  have hmode : d.p.conf.mode = .ack := by rw [hr.hconf]; exact hr.hmode
+  have hng : ¬ a > m := by omega
+  have hnge : ¬ a ≥ m := by omega
+  have hab2 : a + (b - a) = b := by omega
+  have hmax : max b m = m := by omega
+  have hne : ¬ a = b := by omega
+  have hlm : (F.take m).length = m := by simp [List.length_take]; omega
+  constructor
+  · cases hi : env.cfg.indSegRecv <;>
+    msimp [stateMachine, stateMachineWith, checkInsertedPacket, Pdu.hdr, ha.hdir, ha.hdst, ha.hsrc, Pdu.kind,
+      Route.getPacketDestination, hr.hbusy, transmissionMode, hmode, nonIdleFsm,
+      fsmAdvancementAfterPacketsWereSent, hr.hqueue, hr.hstep, fsmFromReceiving, handleFdOrEofPdu, handleFdPdu,
+      fdIndication, hi, getP, emitInd, hr.htid, fdLostSegments, lostSegmentHandling, hng, hnge, hr.hlastE, hr.hlastS,
+      hdl, hab2, hr.htrk, Tracker.remove, Tracker.lookup, Tracker.erase, hne,
+      fdWrite, vfsWriteData, hr.hrej, hr.hname,
+      Fs.writeData, hr.hfile, hw, fdAfterWrite, sizeErrOf, modP, hr.hnoEof, hr.hprog, hmax,
+      fsmFromWaitingForMetadata,
+      fsmFromCheckLimit, fsmFromWaitingForMissingData, fsmFromTransferCompletion, fsmFromSendingFinishedPdu,
+      fsmFromWaitingForFinishedAck, afterFill, filledP, hr.hfin]
+  · exact { hbusy := hr.hbusy, hstep := hr.hstep, hready := hr.hready, hqueue := hr.hqueue, hconf := hr.hconf,
+            hmode := hr.hmode, hname := hr.hname, hfile := by simp [afterFill, Fs.C17.get_set_same],
+            hprog := by simp [afterFill, filledP, hr.hprog, hlm], hnoEof := hr.hnoEof, hrc := hr.hrc,
+            htid := hr.htid, hrej := hr.hrej,
+            hcks := hr.hcks, hcancel := hr.hcancel, hmo := hr.hmo, hflts := hr.hflts, hfin := hr.hfin,
+            htrk := rfl, hlastE := by simp [afterFill, filledP, hr.hlastE, hlm],
+            hlastS := by simp [afterFill, filledP, hr.hlastS, hlm]; omega, hmm := hr.hmm, hdef := hr.hdef }
+
+/-! ### the sender: a NAK in the middle of the stream, resumption, the rest of the run -/
+
+def retransSd (s : Source.SrcSt) (q : List Pdu) : Source.SrcSt :=
+  { s with queue := q, numReady := s.numReady + q.length, stepBefore := some .SENDING_FILE_DATA,
+           step := .RETRANSMITTING }
+
+/-- **NAK at the sender in the middle of the file**: a request for one full segment already sent is
+served with exactly the original File Data PDU; progress is untouched; the sender remembers that it
+was sending file data -/
+theorem C03_sender_serves_request_sending (env : Source.Env) (s : Source.SrcSt) (rc : RemoteCfg) (h : Hdr)
+    (req : Source.PutReq) (src : String) (F : List UInt8) (a b sos eos : Nat)
+    (ha : AdmissibleS env s rc h) (hS : Source.C07.Sending s req src F) (hstep : s.step = .SENDING_FILE_DATA)
+    (hlt : s.p.progress < s.p.fileSize) (hab : b = a + s.p.segmentLen) (hbp : b ≤ s.p.progress) :
+    Source.stateMachine env (some (.nak h sos eos [(a, b)])) s =
+      .ok () (retransSd s [Source.mkFd s.p.conf a ((F.drop a).take s.p.segmentLen)]) := by
+  have hseg : 0 < s.p.segmentLen := hS.hinv.1
+  have hserve := Source.C08.C08_valid_request_served s req src F a b hS.hreq hS.hsrc hS.hfile hseg (by omega)
+    (by omega) hbp
+  have hba : b - a = s.p.segmentLen := by omega
+  rw [hba, chunkPdus_one_segment _ _ _ _ hseg, hS.hqueue] at hserve
+  have hne : s.p.progress ≠ s.p.fileSize := by omega
+  msimp [Source.stateMachine, Source.checkInsertedPacket, Pdu.hdr, ha.hdir, ha.hsrc, ha.hrc, ha.hdst, ha.hseq,
+    Pdu.kind, Route.getPacketDestination, ha.hmode, hstep, hS.hbusy, Source.fsmNonIdle,
+    Source.fsmAdvancementAfterPacketsWereSent, hS.hqueue, hS.hreq, hne, Source.fsmFromSendingFileData,
+    Source.sendingFileDataFsm, Source.transmissionMode,
+    Source.handleRetransmission, Source.handleSegmentReqs, hserve, Source.modP, Source.getP, Source.addPacket,
+    retransSd]
+
+/-- **Resumption**: once the re-sent PDU has been retrieved, the next call restores the step and —
+in the same call — sends the next original tile, exactly as if nothing had happened -/
+theorem C03_sender_resumes_stream (env : Source.Env) (s : Source.SrcSt) (req : Source.PutReq) (src : String)
+    (F : List UInt8) (hst : s.state = .busy) (hstep : s.step = .RETRANSMITTING)
+    (hsb : s.stepBefore = some .SENDING_FILE_DATA) (hq : s.queue = []) (hreq : s.putReq = some req)
+    (hsrc : req.src = some src) (hfile : s.fs.get src = some (.file F)) (hprog : s.p.progress < s.p.fileSize)
+    (hmo : s.p.metadataOnly = false) :
+    Source.stateMachine env none s = .ok () (Source.C07.afterTile s F) := by
+  have hne : s.p.progress ≠ s.p.fileSize := by omega
+  msimp [Source.stateMachine, Source.fsmNonIdle, Source.fsmAdvancementAfterPacketsWereSent,
+    Source.fsmFromSendingFileData,
+    Source.sendingFileDataFsm, Source.handleRetransmission, Source.transmissionMode,
+    Source.prepareProgressingFileDataPdu,
+    Source.prepareFileDataPdu, Source.getP, Source.modP, Source.addPacket, Fs.readData, Source.C07.afterTile,
+    hst, hstep, hsb, hq, hreq, hsrc, hfile, hprog, hmo, hne]
+
+def resumeS (s : Source.SrcSt) : Source.SrcSt := { s with step := .SENDING_FILE_DATA }
+
+open Source.C07 in
+/-- the first call after a retransmission is the call the undisturbed sender would have made -/
+theorem rounds_resume (env : Source.Env) (s : Source.SrcSt) (req : Source.PutReq) (src : String)
+    (F : List UInt8) (hstep : s.step = .RETRANSMITTING) (hsb : s.stepBefore = some .SENDING_FILE_DATA)
+    (hS : Sending (resumeS s) req src F) (hprog : s.p.progress < s.p.fileSize) (n : Nat) :
+    rounds env (n + 1) s = rounds env (n + 1) (resumeS s) := by
+  have h1 := C03_sender_resumes_stream env s req src F hS.hbusy hstep hsb hS.hqueue hS.hreq hS.hsrc hS.hfile hprog
+    hS.hnotMo
+  have h2 := C07_file_data_call env (resumeS s) req src F hS.hbusy (Or.inl rfl) hS.hqueue hS.hreq hS.hsrc hS.hfile
+    hprog hS.hnotMo
+  have h3 : afterTile (resumeS s) F = afterTile s F := rfl
+  simp only [rounds, round, h1, h2, h3]
+
+open Source.C07 in
+/-- **The rest of the sender's run from the middle of the file**: the remaining `k2` tiles and the
+EOF; afterwards everything has been sent and the sender waits for the ACK of the EOF -/
+theorem C03_sender_tail_to_eof (envS : Source.Env) (s2 : Source.SrcSt) (req : Source.PutReq) (rcS : RemoteCfg)
+    (src : String) (F crc : List UInt8) (seg k2 : Nat) (conf : Hdr) (tid : Tid)
+    (hS : Sending s2 req src F) (hstep : s2.step = .SENDING_FILE_DATA)
+    (hseg : s2.p.segmentLen = seg) (hconf : s2.p.conf = conf) (hmode : conf.mode = .ack)
+    (hrc : s2.p.remoteCfg = some rcS) (htid : s2.p.tid = some tid) (hct : s2.p.checkTimer = none)
+    (hk : k2 = 0 ∨ s2.p.progress + (k2 - 1) * seg < F.length) (hend : F.length ≤ s2.p.progress + k2 * seg)
+    (hcks : Checksum.calcChecksum (Checksum.CksType.ofNat rcS.cks) F F.length seg = .ok crc)
+    (hnull : Checksum.CksType.ofNat rcS.cks ≠ .null) (hlen : crc.length = 4) (hack : rcS.ackMs ≠ 0) :
+    ∃ s3, rounds envS (k2 + 1) s2 = some
+        ((List.range k2).map (tile conf F seg s2.p.progress) ++ [Source.mkEof conf ccNoError crc F.length], s3) ∧
+      SentAllS s3 req src F seg conf rcS tid ∧ s3.step = .WAITING_FOR_EOF_ACK ∧ s3.p.checkTimer = none ∧
+      s3.fs = s2.fs ∧ s3.flts = s2.flts ∧ s3.inds.filter isFinished = s2.inds.filter isFinished := by
+  obtain ⟨s2', hr2, hp2, hc2, hsg2, hst2, hS2, hFr2⟩ := C07_stream_tiles envS req src F k2 s2 hS
+    (by rw [hseg]; exact hk)
+  have hstep2 : s2'.step = .SENDING_FILE_DATA := by
+    rcases hst2 with h0 | h0
+    · subst h0
+      simp [rounds] at hr2
+      rw [← hr2]; exact hstep
+    · exact h0
+  have hprog2 : s2'.p.progress = s2'.p.fileSize := by
+    rw [hp2, hS2.hsize, hseg]; exact Nat.min_eq_left hend
+  simp only [Frame] at hFr2
+  obtain ⟨f1, f2, f3, f4, f5, f6, f7, f8, f9, f10, f11, f12, f13, f14, f15, f16⟩ := hFr2
+  have hcall3 := C07_eof_call_ack envS s2' req rcS src F crc tid hS2.hbusy hstep2 hS2.hqueue hS2.hreq hS2.hsrc
+    hS2.hnotMo hS2.hfile hS2.hsize hprog2 (by rw [f1]; exact hrc) (by rw [f2]; exact htid)
+    (by rw [hsg2, hseg]; exact hcks) hnull hlen hack (by rw [hc2, hconf]; exact hmode)
+  refine ⟨Source.C07.drained (afterEofS envS (condS s2') rcS crc tid F.length), ?_, ?_, rfl, ?_, ?_, ?_, ?_⟩
+  · rw [rounds_add envS k2 1 s2]
+    simp only [rounds, round, hr2, hcall3]
+    simp [Source.C07.drained, afterEofS, condS, hc2, hconf, hseg]
+  · exact
+      { hbusy := hS2.hbusy, hqueue := rfl, hreq := hS2.hreq, hsrc := hS2.hsrc, hfile := hS2.hfile,
+        hseg := by show s2'.p.segmentLen = seg; rw [hsg2, hseg],
+        hprog := by show s2'.p.progress = F.length; rw [hprog2, hS2.hsize],
+        hconf := by show s2'.p.conf = conf; rw [hc2, hconf],
+        hrc := by show s2'.p.remoteCfg = some rcS; rw [f1]; exact hrc,
+        htid := by show s2'.p.tid = some tid; rw [f2]; exact htid }
+  · show s2'.p.checkTimer = none; rw [f15]; exact hct
+  · simp [Source.C07.drained, afterEofS, condS, f6]
+  · simp [Source.C07.drained, afterEofS, condS, f5]
+  · simp only [Source.C07.drained, afterEofS, condS, f4, List.filter_append]
+    cases envS.cfg.indEofSent <;> simp [isFinished]
+
+/-- the receiver consumes the sender's tiles from the middle of the file (acknowledged mode, no hole) -/
+theorem receiver_takes_tiles_from (env : Dest.Env) (conf cd : Hdr) (rc : RemoteCfg) (t : Tid) (cks : Nat)
+    (dst : String) (F : List UInt8) (seg p0 : Nat) (hseg : 0 < seg) (hp0 : p0 ≤ F.length)
+    (ha : AdmissibleA env rc { conf with dir := .toRecv }) :
+    ∀ (k : Nat) (d : Dest.DestSt), (k = 0 ∨ p0 + (k - 1) * seg < F.length) →
+      ReceivingA d dst (F.take p0) rc t cks cd →
+      ∃ d', feedPdus env ((List.range k).map (Source.C07.tile conf F seg p0)) d = some d' ∧
+        ReceivingA d' dst (F.take (p0 + k * seg)) rc t cks cd ∧
+        (∀ q, q ≠ dst → d'.fs.get q = d.fs.get q) ∧ d'.flts = d.flts ∧
+        d'.inds.filter isFinished = d.inds.filter isFinished := by
+  intro k
+  induction k with
+  | zero => intro d _ hr; exact ⟨d, by simp [feedPdus], by simpa using hr, fun _ _ => rfl, rfl, rfl⟩
+  | succ k ih =>
+    intro d hk hr
+    have hklt : p0 + k * seg < F.length := by simpa using hk
+    have hk' : k = 0 ∨ p0 + (k - 1) * seg < F.length := by
+      by_cases h0 : k = 0
+      · exact Or.inl h0
+      · right
+        have : (k - 1) * seg ≤ k * seg := Nat.mul_le_mul_right _ (by omega)
+        omega
+    obtain ⟨d1, hf, hR, hother, hfl, hfin⟩ := ih d hk' hr
+    have hlen : (F.take (p0 + k * seg)).length = p0 + k * seg := by simp [List.length_take]; omega
+    have hdata : (F.drop (p0 + k * seg)).take seg ≠ [] := by
+      intro h
+      have := congrArg List.length h
+      simp [List.length_take, List.length_drop] at this
+      omega
+    have htile := C02_tile_ack env d1 dst (F.take (p0 + k * seg)) ((F.drop (p0 + k * seg)).take seg) rc t cks cd
+      { conf with dir := .toRecv } hR ha hdata
+    rw [hlen] at htile
+    obtain ⟨hcall, hR'⟩ := htile
+    refine ⟨afterTileA d1 dst (F.take (p0 + k * seg)) ((F.drop (p0 + k * seg)).take seg) env t, ?_, ?_, ?_, ?_, ?_⟩
+    · rw [List.range_succ, List.map_append, feedPdus_append, hf]
+      simp only [Option.bind, List.map_cons, List.map_nil, feedPdus, Source.C07.tile, Source.mkFd, hcall]
+    · have : F.take (p0 + k * seg) ++ (F.drop (p0 + k * seg)).take seg = F.take (p0 + (k + 1) * seg) := by
+        have : p0 + (k + 1) * seg = p0 + k * seg + seg := by rw [Nat.add_mul, Nat.one_mul]; omega
+        rw [this]; exact List.take_add.symm
+      rw [← this]; exact hR'
+    · intro q hq
+      simp only [afterTileA]
+      rw [Fs.C17.get_set_other _ _ _ _ hq]
+      exact hother q hq
+    · rw [← hfl]; rfl
+    · rw [← hfin]
+      simp only [afterTileA]
+      split <;> simp [isFinished]
+
+open Source.C07 Source.C19 in
+/-- **End to end with one File Data PDU lost, immediate NAK mode: the two models composed.**  The
+link loses tile `j`; the receiver detects the gap with the next tile and requests it at once; the NAK
+reaches the sender in the middle of its stream: it re-sends exactly the lost PDU and then resumes —
+the remaining PDUs are exactly those of the undisturbed run (nothing skipped, nothing repeated, the
+same EOF); the receiver fills the hole and takes the rest; the closing handshake follows.  No call
+raises; both end idle; the destination file is byte-identical; one successful Transaction-Finished
+indication on each side; no fault callback.  For every file, segment length, position of the lost
+tile (with at least one tile after the one that revealed the gap), configuration and checksum type. -/
+theorem C03_end_to_end_single_loss_immediate (envS : Source.Env) (envD : Dest.Env) (s : Source.SrcSt)
+    (d0 : Dest.DestSt) (req : Source.PutReq) (rcS rcD : RemoteCfg) (src dst : String) (F crc : List UInt8)
+    (seg j r : Nat) (tN tF tA t1 t2 t3 t4 : Nat)
+    (hst : s.state = .busy) (hstep : s.step = .IDLE) (hq : s.queue = []) (hreq : s.putReq = some req)
+    (hpmo : s.p.metadataOnly = false) (hsrc : req.src = some src) (hdst : req.dst = some dst)
+    (hfile : s.fs.get src = some (.file F)) (hF : F ≠ []) (hprog : s.p.progress = 0)
+    (hrc : s.p.remoteCfg = some rcS) (hrcid : rcS.entityId.val = req.destId.val)
+    (hbits : s.prov.bits = 8 ∨ s.prov.bits = 16 ∨ s.prov.bits = 32)
+    (hseg : Source.segLenOf rcS (startConf envS req rcS s (decide (F.length > 4294967295))) = some seg)
+    (hseg0 : 0 < seg) (hmode : s.p.conf.mode = .ack) (hct : s.p.checkTimer = none)
+    (hk : (j + 2 + r) * seg < F.length ∧ F.length ≤ (j + 3 + r) * seg)
+    (hcks : Checksum.calcChecksum (Checksum.CksType.ofNat rcS.cks) F F.length seg = .ok crc)
+    (hnull : Checksum.CksType.ofNat rcS.cks ≠ .null) (hlen : crc.length = 4) (hack : rcS.ackMs ≠ 0)
+    (ha : AdmissibleA envD rcD { startConf envS req rcS s (decide (F.length > 4294967295)) with dir := .toRecv })
+    (hackD : rcD.ackMs ≠ 0) (himm : rcD.imm = true)
+    (hidle : d0.state = .idle) (hdq : d0.queue = []) (hdr : d0.numReady = 0) (hrej : d0.rejects = [])
+    (hfl : d0.flts = []) (hnd : Fs.isDir d0.fs dst = false)
+    (hok : (∃ old, d0.fs.get dst = some (.file old)) ∨
+           (Fs.exists' d0.fs dst = false ∧ Fs.parentIsDir d0.fs dst = true)) :
+    let conf := startConf envS req rcS s (decide (F.length > 4294967295))
+    let cd : Hdr := ⟨.toSend, conf.mode, conf.crc, conf.large, conf.src, conf.dst, conf.seq⟩
+    let fpOk : FinishedParams := ⟨ccNoError, dcComplete, fsRetained, none⟩
+    let md := Source.mkMd conf s.p.closure rcS.cks F.length (some src) (some dst) (some (req.msgs.getD []))
+    let eof := Source.mkEof conf ccNoError crc F.length
+    let lost := tile conf F seg 0 j
+    let nak : Pdu := .nak cd 0 ((j + 2) * seg) [(j * seg, (j + 1) * seg)]
+    ∃ pdus1 s2 dH s2n dF pdus2 s3 d3 s4 d4 s5 d5 s6,
+      -- Metadata and the tiles 0 … j+1; tile j is lost; the tile after it reveals the gap: NAK at once
+      rounds envS (1 + (j + 2)) s = some (pdus1, s2) ∧ pdus1[j + 1]? = some lost ∧
+      feedPdus envD (pdus1.eraseIdx (j + 1)) d0 = some dH ∧ dH.queue = [nak] ∧
+      -- the sender, in the middle of the file, answers with exactly the lost PDU; the hole is filled
+      Source.stateMachine ⟨envS.cfg, tN⟩ (some nak) s2 = .ok () s2n ∧ s2n.queue = [lost] ∧
+      Dest.stateMachine ⟨envD.cfg, tF⟩ (some lost) (drained dH) = .ok () dF ∧ dF.queue = [] ∧
+      -- the sender resumes: all its PDUs together are exactly those of the undisturbed run
+      rounds envS (r + 1 + 1) (Source.C07.drained s2n) = some (pdus2, s3) ∧
+      pdus1 ++ pdus2 = [md] ++ (List.range (j + 3 + r)).map (tile conf F seg 0) ++ [eof] ∧
+      feedPdus envD pdus2 dF = some d3 ∧ d3.queue = [.ack cd dtEof ccNoError tsActive] ∧
+      Source.stateMachine ⟨envS.cfg, tA⟩ (some (.ack cd dtEof ccNoError tsActive)) s3 = .ok () s4 ∧ s4.queue = [] ∧
+      -- closing handshake
+      Dest.stateMachine ⟨envD.cfg, t1⟩ none (drained d3) = .ok () d4 ∧ d4.queue = [.fin cd fpOk] ∧
+      Source.stateMachine ⟨envS.cfg, t2⟩ (some (.fin cd fpOk)) s4 = .ok () s5 ∧
+      s5.queue = [Source.mkAck conf dtFinished ccNoError tsActive] ∧
+      Dest.stateMachine ⟨envD.cfg, t3⟩ (some (Source.mkAck conf dtFinished ccNoError tsActive)) (drained d4) = .ok () d5 ∧
+      Source.stateMachine ⟨envS.cfg, t4⟩ none (Source.C07.drained s5) = .ok () s6 ∧
+      s6.state = .idle ∧ d5.state = .idle ∧ s6.queue = [] ∧ d5.queue = [] ∧
+      d5.fs.get dst = some (.file F) ∧ (∀ q, q ≠ dst → d5.fs.get q = d0.fs.get q) ∧ s6.fs = s.fs ∧
+      d5.flts = [] ∧ s6.flts = s.flts ∧
+      s6.inds.filter isFinished = s.inds.filter isFinished ++
+        (if envS.cfg.indFinished then [.finished (some ⟨envS.cfg.entityId, ⟨s.prov.next, s.prov.bits / 8⟩⟩) fpOk]
+         else []) ∧
+      d5.inds.filter isFinished = d0.inds.filter isFinished ++
+        (if envD.cfg.indFinished then [.finished (some ⟨conf.src, conf.seq⟩) fpOk] else []) := by
+  intro conf cd fpOk md eof lost nak
+  let tid : Tid := ⟨envS.cfg.entityId, ⟨s.prov.next, s.prov.bits / 8⟩⟩
+  have hsrcv : conf.src.val = envS.cfg.entityId.val := by simp [conf, startConf]
+  have hdstv : conf.dst.val = rcS.entityId.val := by simp [conf, startConf, hrcid]
+  have hmodeC : conf.mode = .ack := by simp [conf, startConf, hmode]
+  -- grid arithmetic
+  have e1 : (j + 1) * seg = j * seg + seg := by simp [Nat.add_mul]
+  have e2 : (j + 2) * seg = j * seg + 2 * seg := by simp [Nat.add_mul]
+  have e3 : (j + 2 + r) * seg = j * seg + 2 * seg + r * seg := by simp [Nat.add_mul]
+  have e4 : (j + 3 + r) * seg = j * seg + 3 * seg + r * seg := by simp [Nat.add_mul]
+  have e5 : (r + 1) * seg = r * seg + seg := by simp [Nat.add_mul]
+  have hlt' : (j + 2) * seg + r * seg < F.length := by have := hk.1; omega
+  have hend' : F.length ≤ (j + 2) * seg + (r + 1) * seg := by have := hk.2; omega
+  have haT : ∀ t, AdmissibleA ⟨envD.cfg, t⟩ rcD { conf with dir := .toRecv } := fun t =>
+    ⟨rfl, ha.hdst, ha.hsrc, ha.hmode⟩
+  -- the sender up to tile j+1
+  obtain ⟨hcall1, hS1⟩ := C07_metadata_call envS s req rcS src dst F seg hst hstep hq hreq hpmo hsrc hdst hfile hF
+    hprog hrc hbits hseg hseg0
+  obtain ⟨s2, hr2, hp2, hc2, hsg2, hst2, hS2, hFr2⟩ := C07_stream_tiles envS req src F (j + 2) _ hS1
+    (Or.inr (by
+      have : j + 2 - 1 = j + 1 := by omega
+      simp only [Source.C07.drained, afterMetadata, hprog, Nat.zero_add, this]; omega))
+  have hstep2 : s2.step = .SENDING_FILE_DATA := hst2.resolve_left (by omega)
+  simp only [Frame] at hFr2
+  obtain ⟨f1, f2, f3, f4, f5, f6, f7, f8, f9, f10, f11, f12, f13, f14, f15, f16⟩ := hFr2
+  have hconf2 : s2.p.conf = conf := by rw [hc2]; simp [Source.C07.drained, afterMetadata, conf]
+  have hseg2 : s2.p.segmentLen = seg := by rw [hsg2]; simp [Source.C07.drained, afterMetadata]
+  have hprog2 : s2.p.progress = (j + 2) * seg := by
+    rw [hp2]; simp only [Source.C07.drained, afterMetadata, hprog, Nat.zero_add]
+    exact Nat.min_eq_right (by omega)
+  have hrc2 : s2.p.remoteCfg = some rcS := by rw [f1]; simp [Source.C07.drained, afterMetadata, hrc]
+  have htid2 : s2.p.tid = some tid := by rw [f2]; simp [Source.C07.drained, afterMetadata, tid]
+  have hct2 : s2.p.checkTimer = none := by rw [f15]; simp [Source.C07.drained, afterMetadata, hct]
+  have hrun1 : rounds envS (1 + (j + 2)) s = some ([md] ++ (List.range (j + 2)).map (tile conf F seg 0), s2) := by
+    have h1r : rounds envS 1 s = some ([md], Source.C07.drained (afterMetadata envS s req rcS src dst F seg)) := by
+      simp only [rounds, round, hcall1]
+      simp [afterMetadata, md, conf]
+    rw [rounds_add envS 1 (j + 2) s, h1r]
+    simp only [hr2]
+    simp [Source.C07.drained, afterMetadata, hprog, conf, md]
+  -- the NAK at the sender
+  have hadm2 : AdmissibleS ⟨envS.cfg, tN⟩ s2 rcS cd :=
+    { hdir := rfl, hsrc := hsrcv, hrc := hrc2, hdst := hdstv, hseq := by rw [hconf2],
+      hmode := by rw [hconf2]; exact hmodeC }
+  have hlt2 : s2.p.progress < s2.p.fileSize := by rw [hprog2, hS2.hsize]; omega
+  have hN := C03_sender_serves_request_sending ⟨envS.cfg, tN⟩ s2 rcS cd req src F (j * seg) ((j + 1) * seg) 0
+    ((j + 2) * seg) hadm2 hS2 hstep2 hlt2 (by rw [hseg2]; exact e1) (by rw [hprog2]; omega)
+  rw [hseg2, hconf2] at hN
+  have hlost : Source.mkFd conf (j * seg) ((F.drop (j * seg)).take seg) = lost := by simp [lost, tile]
+  rw [hlost] at hN
+  -- resumption and the rest of the run
+  have hSr : Sending (resumeS (Source.C07.drained (retransSd s2 [lost]))) req src F :=
+    { hbusy := hS2.hbusy, hstep := Or.inl rfl, hqueue := rfl, hreq := hS2.hreq, hsrc := hS2.hsrc,
+      hfile := hS2.hfile, hsize := hS2.hsize, hnotMo := hS2.hnotMo, hinv := hS2.hinv }
+  have hres := rounds_resume envS (Source.C07.drained (retransSd s2 [lost])) req src F rfl rfl hSr hlt2 (r + 1)
+  obtain ⟨s3, hrun2, hS3, hstep3, hct3, hfs3, hfl3, hin3⟩ :=
+    C03_sender_tail_to_eof envS (resumeS (Source.C07.drained (retransSd s2 [lost]))) req rcS src F crc seg (r + 1) conf
+      tid hSr rfl hseg2 hconf2 hmodeC hrc2 htid2 hct2
+      (Or.inr (by show s2.p.progress + (r + 1 - 1) * seg < F.length; rw [hprog2]; simp only [Nat.add_sub_cancel]; exact hlt'))
+      (by show F.length ≤ s2.p.progress + (r + 1) * seg; rw [hprog2]; exact hend') hcks hnull hlen hack
+  rw [← hres] at hrun2
+  have hp2' : (resumeS (Source.C07.drained (retransSd s2 [lost]))).p.progress = (j + 2) * seg := hprog2
+  rw [hp2'] at hrun2
+  -- the receiver
+  obtain ⟨hmd, hR1⟩ := C02_metadata_ack envD d0 { conf with dir := .toRecv } rcD s.p.closure rcS.cks F.length src dst
+    (some (req.msgs.getD [])) ha hidle hdq hdr hrej hfl hnd hok
+  obtain ⟨dA, hfeedA, hRA, hotherA, hfinA⟩ := receiver_takes_tiles_ack envD conf _ rcD _ rcS.cks dst F seg hseg0 ha j _
+    (by rcases Nat.eq_zero_or_pos j with h0 | h0
+        · exact Or.inl h0
+        · right
+          have : (j - 1) * seg ≤ j * seg := Nat.mul_le_mul_right _ (by omega)
+          omega) hR1
+  obtain ⟨hgap, hH⟩ := C03_gap_tile_immediate envD dA dst F (j * seg) ((j + 1) * seg) seg rcD _ rcS.cks cd
+    { conf with dir := .toRecv } hRA ha (by omega) (by omega) hseg0 himm
+  have hm : min ((j + 1) * seg + seg) F.length = (j + 2) * seg := by omega
+  have hn : min seg (F.length - (j + 1) * seg) = seg := by omega
+  rw [hm, hn] at hgap hH
+  obtain ⟨hfill, hRF⟩ := C03_hole_filled_receiving ⟨envD.cfg, tF⟩ _ dst F (j * seg) ((j + 1) * seg) ((j + 2) * seg) rcD _
+    rcS.cks cd { conf with dir := .toRecv } hH (haT tF) (by omega) (by omega) (by omega)
+  have hba : (j + 1) * seg - j * seg = seg := by omega
+  rw [hba] at hfill
+  obtain ⟨dT, hfeedT, hRT, hotherT, hflT, hfinT⟩ := receiver_takes_tiles_from envD conf cd rcD _ rcS.cks dst F seg
+    ((j + 2) * seg) hseg0 (by omega) ha (r + 1) _
+    (Or.inr (by simp only [Nat.add_sub_cancel]; omega)) hRF
+  have hall : F.take ((j + 2) * seg + (r + 1) * seg) = F := List.take_of_length_le (by omega)
+  rw [hall] at hRT
+  obtain ⟨d3, heof, hq3, hA, hfs3d, hfl3d, hin3d⟩ := C03_receiver_eof envD dT dst F crc rcD _ rcS.cks cd
+    { conf with dir := .toRecv } hRT ha
+  -- the ACK (EOF) at the sender, the closing handshake
+  have hadm3 : AdmissibleS ⟨envS.cfg, tA⟩ s3 rcS cd :=
+    { hdir := rfl, hsrc := hsrcv, hrc := hS3.hrc, hdst := hdstv, hseq := by rw [hS3.hconf],
+      hmode := by rw [hS3.hconf]; exact hmodeC }
+  have h4 := C02_source_eof_acked ⟨envS.cfg, tA⟩ s3 rcS cd ccNoError tsActive req hadm3 hS3.hbusy hstep3 hS3.hqueue
+    hS3.hreq hct3
+  have hS4 : SentAllS { s3 with step := .WAITING_FOR_FINISHED } req src F seg conf rcS tid :=
+    ⟨hS3.hbusy, hS3.hqueue, hS3.hreq, hS3.hsrc, hS3.hfile, hS3.hseg, hS3.hprog, hS3.hconf, hS3.hrc, hS3.htid⟩
+  have hver : rcS.cks = 15 ∨ Fs.calcChecksum (drained d3).fs (Checksum.CksType.ofNat rcS.cks) dst F.length 4096 = .ok crc := by
+    right
+    have := Checksum.C09.C09_chunk_length_irrelevant (Checksum.CksType.ofNat rcS.cks) F F.length seg 4096
+      (by omega) (by omega)
+    have hf : (drained d3).fs.get dst = some (.file F) := hA.hfile
+    simp [Fs.calcChecksum, hnull, hf, ← this, hcks]
+  obtain ⟨d4, s5, d5, s6, hv, hq4, h5, hq5, hd5, h6, hi6, hi5, hq6, hq5', hfs5, hfs6, hfl5, hfl6, hin6, hin5⟩ :=
+    C03_closing envS.cfg envD.cfg _ (drained d3) req src dst F crc seg conf rcS rcD tid rcS.cks t1 t2 t3 t4
+      hS4 (Or.inr (Or.inl rfl)) hA (haT t3) hsrcv hdstv hackD hver
+  have hl2 : lost = .fd { conf with dir := .toRecv } (j * seg) ((F.drop (j * seg)).take seg) := by
+    simp [lost, tile, Source.mkFd]
+  -- what the link delivered before the NAK
+  have hdeliv1 : feedPdus envD (([md] ++ (List.range (j + 2)).map (tile conf F seg 0)).eraseIdx (j + 1)) d0 =
+      some (afterGapI dA dst F (j * seg) ((j + 1) * seg) ((j + 2) * seg) seg envD ⟨conf.src, conf.seq⟩) := by
+    rw [List.singleton_append, List.eraseIdx_cons_succ]
+    have hjr : j + 2 = j + 1 + 1 := rfl
+    rw [hjr, map_range_eraseIdx]
+    simp only [List.cons_append, feedPdus, md, Source.mkMd, hmd]
+    rw [feedPdus_append, hfeedA]
+    simp only [Option.bind, List.range_one, List.map_cons, List.map_nil, feedPdus, tile, Source.mkFd,
+      Nat.add_zero, Nat.zero_add, hgap]
+  refine ⟨_, s2, _, _, _, _, s3, d3, _, d4, s5, d5, s6, hrun1, ?_, hdeliv1, ?_, hN, rfl, (by rw [hl2]; exact hfill), hRF.hqueue, hrun2, ?_,
+    ?_, ?_, h4, hS3.hqueue, hv, hq4, h5, hq5, hd5, h6, hi6, hi5, hq6, hq5', ?_, ?_, ?_, ?_, ?_, ?_, ?_⟩
+  · rw [List.singleton_append, List.getElem?_cons_succ, List.getElem?_map, List.getElem?_range (by omega)]
+    rfl
+  · simp [afterGapI, hRA.hconf, Dest.mkNak, nak, cd]
+  · -- the PDUs of the disturbed run are those of the undisturbed one
+    have hmapeq : (List.range (r + 1)).map (tile conf F seg ((j + 2) * seg)) =
+        (List.range (r + 1)).map ((tile conf F seg 0) ∘ fun x => j + 2 + x) := by
+      apply List.map_congr_left
+      intro i _
+      have : 0 + (j + 2 + i) * seg = (j + 2) * seg + i * seg := by simp [Nat.add_mul]
+      simp [tile, this]
+    have hsplit : (List.range (j + 3 + r)).map (tile conf F seg 0) =
+        (List.range (j + 2)).map (tile conf F seg 0) ++ (List.range (r + 1)).map (tile conf F seg ((j + 2) * seg)) := by
+      have : j + 3 + r = (j + 2) + (r + 1) := by omega
+      rw [this, List.range_add, List.map_append, List.map_map, ← hmapeq]
+    rw [hsplit]
+    simp [List.append_assoc, eof]
+  · rw [feedPdus_append, hfeedT]
+    simp only [Option.bind, feedPdus, Source.mkEof, heof]
+  · simpa [Dest.mkAck, dtEof, dtFinished, cd] using hq3
+  · rw [hfs5]; exact hA.hfile
+  · intro q hq'
+    rw [hfs5]; show d3.fs.get q = _
+    rw [hfs3d, hotherT q hq']
+    simp only [afterFill, C02.drained, afterGapI]
+    rw [Fs.C17.get_set_other _ _ _ _ hq', Fs.C17.get_set_other _ _ _ _ hq', hotherA q hq']
+    simp [afterMdA, Fs.C17.get_set_other _ _ _ _ hq']
+  · rw [hfs6]; show s3.fs = s.fs
+    rw [hfs3]; show s2.fs = s.fs
+    rw [f6]; rfl
+  · rw [hfl5]; show d3.flts = []
+    rw [hfl3d]; exact hRT.hflts
+  · rw [hfl6]; show s3.flts = s.flts
+    rw [hfl3]; show s2.flts = s.flts
+    rw [f5]; rfl
+  · rw [hin6]; show s3.inds.filter isFinished ++ _ = _
+    rw [hin3]; show s2.inds.filter isFinished ++ _ = _
+    rw [f4]
+    simp [Source.C07.drained, afterMetadata, isFinished, tid, fpOk]
+  · rw [hin5]; show d3.inds.filter isFinished ++ _ = _
+    rw [hin3d, hfinT]
+    simp only [afterFill, C02.drained, afterGapI, List.filter_append, hfinA]
+    have h1 : (afterMdA envD d0 { conf with dir := .toRecv } rcD s.p.closure rcS.cks F.length src dst
+        (some (req.msgs.getD []))).inds.filter isFinished = d0.inds.filter isFinished := by
+      simp [afterMdA, isFinished]
+    rw [h1]
+    cases envD.cfg.indSegRecv <;> simp [isFinished, fpOk]
+
+
 end Cfdp.C03
 
 /-! ## the hypotheses of the composed theorems are satisfiable (non-vacuity) -/
@@ -2619,6 +3137,18 @@ example : True := by
     (by decide) (by decide +kernel) (by decide) rfl (by decide)
     ⟨rfl, rfl, by decide, rfl⟩ (by decide) (by decide) rfl (by decide) (by decide)
     (by simp [C04.Expiring, rcD]) (by decide)
+    rfl rfl rfl rfl rfl (by decide) (Or.inl ⟨[9], rfl⟩)
+  trivial
+
+/-- the hypotheses of `C03_end_to_end_single_loss_immediate` are satisfiable: immediate NAK mode, the
+first of three tiles lost -/
+example : True := by
+  have h := C03_end_to_end_single_loss_immediate envS ⟨{ envD.cfg with remotes := [{ rcD with imm := true }] }, 0⟩ s d0 req
+    rcS { rcD with imm := true } "/a" "/b" F [71, 11, 153, 244] 2 0 0
+    1 2 3 4 5 6 7
+    rfl rfl rfl rfl rfl rfl rfl rfl (by decide) rfl rfl rfl (by decide) (by decide) (by decide) rfl rfl
+    (by decide) (by decide +kernel) (by decide) rfl (by decide)
+    ⟨rfl, rfl, by decide, rfl⟩ (by decide) rfl
     rfl rfl rfl rfl rfl (by decide) (Or.inl ⟨[9], rfl⟩)
   trivial
 
